@@ -89,13 +89,19 @@ impl<T: FileReader> RVParser<T> {
     /// we will skip the rest of the line and try to parse the next line.
     fn recover_from_parse_error(&mut self) {
         let lexer = self.lexer();
+        #[cfg(rva_verif)]
+        crate::verif_hooks::recover(true);
         if let Some(x) = lexer {
             for token in x.by_ref().flatten() {
+                #[cfg(rva_verif)]
+                crate::verif_hooks::skipped(&token);
                 if token == TokenType::Newline {
                     break;
                 }
             }
         }
+        #[cfg(rva_verif)]
+        crate::verif_hooks::recover(false);
     }
 
     /// Parse files
@@ -127,7 +133,11 @@ impl<T: FileReader> RVParser<T> {
         ));
 
         while let Some(l) = self.lexer() {
+            #[cfg(rva_verif)]
+            crate::verif_hooks::stmt_begin();
             let node = ParserNode::try_from(l);
+            #[cfg(rva_verif)]
+            crate::verif_hooks::stmt_end(&node);
 
             match node {
                 Ok(x) => {
@@ -135,10 +145,14 @@ impl<T: FileReader> RVParser<T> {
                         if let Some(path) = x.get_include_path() {
                             match self.reader.import_file(path.get(), Some(path.file())) {
                                 Ok((new_uuid, new_text)) => {
+                                    #[cfg(rva_verif)]
+                                    crate::verif_hooks::stack("push");
                                     self.lexer_stack
                                         .push(Lexer::new(new_text, new_uuid).peekable());
                                 }
                                 Err(error) => {
+                                    #[cfg(rva_verif)]
+                                    crate::verif_hooks::stack("import_error");
                                     parse_errors.push(error.to_parse_error(path.clone()));
                                 }
                             }
@@ -163,6 +177,8 @@ impl<T: FileReader> RVParser<T> {
                         self.recover_from_parse_error();
                     }
                     LexError::UnexpectedEOF => {
+                        #[cfg(rva_verif)]
+                        crate::verif_hooks::stack("pop");
                         self.lexer_stack.pop();
                     }
                     LexError::NeedTwoNodes(n1, n2) => {
@@ -285,6 +301,8 @@ impl AnnotatedLexer<'_> {
 
     fn get_any(&mut self) -> Result<Token, LexError> {
         let Some(item) = self.lexer.next() else {
+            #[cfg(rva_verif)]
+            crate::verif_hooks::pulled(None);
             // End of file in the middle of a statement: report the
             // incomplete statement instead of dropping it silently.
             if self.raw_token != RawToken::default() {
@@ -297,6 +315,8 @@ impl AnnotatedLexer<'_> {
             }
             return Err(LexError::UnexpectedEOF);
         };
+        #[cfg(rva_verif)]
+        crate::verif_hooks::pulled(Some(&item));
         if let Ok(ref item) = item {
             if self.raw_token == RawToken::default() {
                 self.raw_token = item.clone().into();
